@@ -362,6 +362,8 @@ class H3Stream:
     def __init__(self, stream_id: int) -> None:
         self.blocked = False
         self.blocked_frame_size: Optional[int] = None
+        self.blocked_frame_type: Optional[int] = None
+        self.blocked_push_id: Optional[int] = None
         self.buffer = b""
         self.receiving_ended = False
         self.sending_ended = False
@@ -826,14 +828,20 @@ class H3Connection:
         elif frame_type == FrameType.PUSH_PROMISE and stream.push_id is None:
             if not self._is_client:
                 raise FrameUnexpected("Clients must not send PUSH_PROMISE")
-            frame_buf = Buffer(data=frame_data)
-            try:
-                push_id = frame_buf.pull_uint_var()
-            except BufferReadError:
-                raise FrameError("PUSH_PROMISE frame is truncated")
-            headers = self._decode_headers(
-                stream.stream_id, frame_data[frame_buf.tell() :]
-            )
+            if frame_data is None:
+                # the stream was blocked on this frame, resume decoding
+                push_id = stream.blocked_push_id
+                headers = self._decode_headers(stream.stream_id, None)
+            else:
+                frame_buf = Buffer(data=frame_data)
+                try:
+                    push_id = frame_buf.pull_uint_var()
+                except BufferReadError:
+                    raise FrameError("PUSH_PROMISE frame is truncated")
+                stream.blocked_push_id = push_id
+                headers = self._decode_headers(
+                    stream.stream_id, frame_data[frame_buf.tell() :]
+                )
 
             # validate headers
             validate_push_promise_headers(headers)
@@ -844,7 +852,11 @@ class H3Connection:
                     category="http",
                     event="frame_parsed",
                     data=self._quic_logger.encode_http3_push_promise_frame(
-                        length=len(frame_data),
+                        length=(
+                            stream.blocked_frame_size
+                            if frame_data is None
+                            else len(frame_data)
+                        ),
                         headers=headers,
                         push_id=push_id,
                         stream_id=stream.stream_id,
@@ -1083,6 +1095,7 @@ class H3Connection:
             except pylsqpack.StreamBlocked:
                 stream.blocked = True
                 stream.blocked_frame_size = len(frame_data)
+                stream.blocked_frame_type = frame_type
                 break
 
         # remove processed data from buffer
@@ -1228,7 +1241,7 @@ class H3Connection:
             # resume headers
             http_events.extend(
                 self._handle_request_or_push_frame(
-                    frame_type=FrameType.HEADERS,
+                    frame_type=stream.blocked_frame_type,
                     frame_data=None,
                     stream=stream,
                     stream_ended=stream.receiving_ended and not stream.buffer,
@@ -1236,6 +1249,7 @@ class H3Connection:
             )
             stream.blocked = False
             stream.blocked_frame_size = None
+            stream.blocked_frame_type = None
 
             # resume processing
             if stream.buffer:
